@@ -36,6 +36,9 @@ use crate::store::Store;
 use crate::store::StoreError;
 use crate::utils::protocol_id;
 
+#[cfg(eigerco_lumina_verif)]
+pub(super) mod verif_client;
+
 const MAX_PEERS: usize = 10;
 const PEER_COOLDOWN: Duration = Duration::from_secs(3);
 const SCHEDULE_PENDING_INTERVAL: Duration = Duration::from_millis(100);
